@@ -58,10 +58,14 @@ CLAIMED = {
         "is never matched again however many events arrive; a timeout tick after resolution is a no-op; waiter_event "
         "publication and timeout scheduling happen only when the waiter id is new. Tied by the L1 reducer "
         "differential (incl. serialize/resume/rehydrate ops) + the statement on real transitions + L2 monitor on "
-        "real wait workflows (duplicate/early responses, timeouts). PARTIAL: after serialization requirements are "
-        "re-established by rehydration ticks - covered by correspondence (OSerde/OResume ops), not by a theorem; the "
-        "runner emitting one timeout tick per schedule command is exercised, not modelled.",
-        "Runner timers exercised under the virtual-time loop, not modelled.",
+        "real wait workflows (duplicate/early responses, timeouts; snapshots of waiting runs restored after 0-2 extra "
+        "serialization round trips, then given non-matching and matching events). Run loop (Model/Runner.v, "
+        "Proofs/RunnerConserveWT.v), every schedule: the waiter timeouts the reducer scheduled are, with multiplicity, "
+        "exactly the timeout ticks it processed plus those still in the timer heap / buffer / mailbox "
+        "(C10_run_loop_conserves_waiter_timeouts); tied to _ControlLoopRunner by the runner differential. PARTIAL: "
+        "after serialization requirements are re-established by the replayed step registering the wait again - user "
+        "code, covered by correspondence (OSerde/OResume ops, waitflow snapshot/resume runs), not by a theorem.",
+        "asyncio timers are exercised under the virtual-time loop (L2 monitor, runner differential), not modelled.",
         "Rocq proof (case analysis + induction over waiter lists) + L1/L2 correspondence",
         "DESIGN.md §7 C10, §13"),
     "C07": (
